@@ -192,7 +192,7 @@ impl Iterator for Permutations {
         // 1 6 4 2 -> 2 1 4 6
         // last increase, and the largest index of something larger than it
         let mut up = None;
-        for i in 0..(v.len() - 1) {
+        for i in 0..v.len().saturating_sub(1) {
             if v[i] < v[i + 1] {
                 up = Some((i, i + 1));
             } else {
